@@ -5,7 +5,7 @@ class C05(FloorProp):
     id = 'C05'
     profile = 'c05'
     design_ref = 'DESIGN.md section 4 / C05'
-    budgets = {'quick': 8000, 'thorough': 300000}
+    budgets = {'quick': 30000, 'thorough': 600000}
 
 
 PROP = C05()
